@@ -6,7 +6,7 @@
 (* and mul cancel gcds before multiplying so that the B-spline lattices    *)
 (* used by the MC_* models stay inside that range.                         *)
 (***************************************************************************)
-EXTENDS Integers, Sequences
+EXTENDS Integers, Sequences, TLC
 
 Abs(x) == IF x < 0 THEN -x ELSE x
 Sgn(x) == IF x < 0 THEN -1 ELSE IF x = 0 THEN 0 ELSE 1
@@ -62,12 +62,14 @@ RECURSIVE RPow(_, _)
 RPow(a, k) == IF k = 0 THEN One ELSE RMul(a, RPow(a, k - 1))
 
 \* ---- vectors (sequences of rationals) -----------------------------------
-Rep(x, n)    == [i \in 1..n |-> x]
+\* TLC represents [k \in S |-> e] lazily and re-evaluates e on every application; TLCEval forces the
+\* value once (without it nested vector expressions are re-computed exponentially often).
+Rep(x, n)    == TLCEval([i \in 1..n |-> x])
 VZero(d)     == Rep(Zero, d)
-VAdd(a, b)   == [k \in 1..Len(a) |-> RAdd(a[k], b[k])]
-VSub(a, b)   == [k \in 1..Len(a) |-> RSub(a[k], b[k])]
-VScale(c, a) == [k \in 1..Len(a) |-> RMul(c, a[k])]
-VNeg(a)      == [k \in 1..Len(a) |-> RNeg(a[k])]
+VAdd(a, b)   == TLCEval([k \in 1..Len(a) |-> RAdd(a[k], b[k])])
+VSub(a, b)   == TLCEval([k \in 1..Len(a) |-> RSub(a[k], b[k])])
+VScale(c, a) == TLCEval([k \in 1..Len(a) |-> RMul(c, a[k])])
+VNeg(a)      == TLCEval([k \in 1..Len(a) |-> RNeg(a[k])])
 \* alpha*a + (1-alpha)*b
 VLerp(al, a, b) == VAdd(VScale(al, a), VScale(RSub(One, al), b))
 RECURSIVE VSum(_, _)
@@ -79,7 +81,7 @@ VNorm2(a) == VDot(a, a)
 VCross(a, b) == <<RSub(RMul(a[2], b[3]), RMul(a[3], b[2])),
                   RSub(RMul(a[3], b[1]), RMul(a[1], b[3])),
                   RSub(RMul(a[1], b[2]), RMul(a[2], b[1]))>>
-VInts(s) == [k \in 1..Len(s) |-> RI(s[k])]
+VInts(s) == TLCEval([k \in 1..Len(s) |-> RI(s[k])])
 
 \* binomial coefficient (integer)
 RECURSIVE Binom(_, _)
